@@ -19,6 +19,7 @@ def _worker(job):
     solve.STATS.update({"queries": 0, "solver_s": 0.0, "by_engine": {}, "hashes": set(), "trivial": 0, "nontrivial_hashes": set(), "unknown": 0})
     m = importlib.import_module(mod)
     fn = getattr(m, fname)
+    opts = {k: v for k, v in opts.items() if not k.startswith("_")}
     try:
         rec = world.run_obligation(fn, params, name, **opts)
     except solve.HarnessError as e:
@@ -55,7 +56,7 @@ def run_jobs(jobs, nproc, hard_limit=None):
                 os._exit(code)
         os.close(wfd)
         to = job[4].get("timeout", 20.0)
-        limit = hard_limit or max(600.0, 40 * to)
+        limit = hard_limit or job[4].get("_limit") or max(600.0, 40 * to)
         running[rfd] = dict(pid=pid, job=job, buf=bytearray(), t0=_t.time(), limit=limit)
 
     def fail(job, why):
@@ -158,6 +159,8 @@ def main(argv=None):
     for o in obs:
         opts = {"timeout": o.get("timeout", default_to), "fork": o.get("fork", False), "max_paths": o.get("max_paths", 64),
                 "vacuity": o.get("vacuity", True), "replay": o.get("replay", True), "only": o.get("only")}
+        if o.get("limit"):
+            opts["_limit"] = o["limit"]
         joblist.append((hmod, o["fn"], o["params"], o["name"], opts))
     # heavier first
     order = sorted(range(len(joblist)), key=lambda k: -obs[k].get("weight", 1))
